@@ -286,12 +286,19 @@ Proof.
 Qed.
 
 Lemma model_is_ref_on_D_l : forall lib o same l r,
-  inD o l r = true -> wf l = true -> wf r = true -> (same = true -> l = r) ->
+  inD lib o l r = true -> wf l = true -> wf r = true -> (same = true -> l = r) ->
   binop_eval lib same o l r = ref_binop lib o l r.
 Proof.
   intros lib o same l r HD Hl Hr Hs.
   destruct o; cbn [binop_eval inD] in *.
-  - (* + *) destruct l, r; try discriminate; reflexivity.
+  - (* + *)
+    destruct l, r; try discriminate; try reflexivity;
+      match goal with s : string |- _ =>
+        unfold add, numstr, str_number, ref_binop, str_and_number, str_num in *; cbn in *;
+        destruct (parse_int lib s) eqn:Ei; destruct (parse_float lib s) eqn:Ef;
+        cbn in *; unfold as_float; rewrite ?Ei, ?Ef in *; cbn; rewrite ?Ei, ?Ef;
+        try discriminate; try reflexivity
+      end.
   - (* - *) destruct l, r; try discriminate; reflexivity.
   - (* * *) destruct l, r; try discriminate; reflexivity.
   - (* / *) destruct l, r; try discriminate; reflexivity.
@@ -352,6 +359,7 @@ Qed.
 (* ------------------------------------------------------------------ never a crash *)
 Ltac crush_matches :=
   repeat match goal with
+  | |- context [match parse_int ?l ?s with _ => _ end] => destruct (parse_int l s)
   | |- context [match parse_float ?l ?s with _ => _ end] => destruct (parse_float l s)
   | |- context [if ?c then _ else _] => destruct c
   end.
@@ -372,7 +380,7 @@ Lemma acceptable_any_pair_l : forall lib same o l r, wf l = true -> wf r = true 
 Proof.
   intros lib same o l r Hl Hr.
   destruct o; cbn [binop_eval].
-  - unfold add. destruct l, r; cbn; crush_matches; reflexivity.
+  - unfold add, numstr, str_number. destruct l, r; cbn; unfold as_float; cbn; crush_matches; cbn; unfold as_float; crush_matches; reflexivity.
   - unfold sub, opd_float, opd_int. destruct l, r; cbn; crush_matches; reflexivity.
   - unfold mul, opd_float, opd_int. destruct l, r; cbn; crush_matches; reflexivity.
   - unfold quo, opd_float. destruct l, r; cbn; crush_matches; reflexivity.
@@ -455,6 +463,7 @@ Qed.
 
 Ltac split_ifs H :=
   repeat match type of H with
+  | context [match parse_int ?l ?s with _ => _ end] => destruct (parse_int l s)
   | context [match parse_float ?l ?s with _ => _ end] => destruct (parse_float l s)
   | context [if ?c then _ else _] => destruct c eqn:?
   end.
@@ -464,7 +473,7 @@ Lemma int_results_in_range_l : forall lib same o l r z, wf l = true -> wf r = tr
 Proof.
   intros lib same o l r z Hl Hr H.
   destruct o; cbn [binop_eval] in H.
-  - unfold add in H. destruct l, r; cbn -[wrap64 Z.add Z.sub Z.mul] in H; split_ifs H; try discriminate;
+  - unfold add, numstr, str_number in H. destruct l, r; cbn -[wrap64 Z.add Z.sub Z.mul] in H; unfold as_float in H; split_ifs H; cbn -[wrap64 Z.add Z.sub Z.mul] in H; unfold as_float in H; split_ifs H; try discriminate;
       injection H as <-; apply wrap64_range.
   - unfold sub, opd_float, opd_int in H. destruct l, r; cbn -[wrap64 Z.add Z.sub Z.mul] in H; split_ifs H; try discriminate;
       injection H as <-; apply wrap64_range.
